@@ -239,6 +239,8 @@ TransitionTo(s, new) ==
        IN IF r.exc = NoExc THEN Ok(Finally(r.s), None)
           ELSE LET s1 == [r.s EXCEPT !.transitioning = FALSE] IN
                IF s1.failing THEN Err(Finally(s1), r.exc)
+               ELSE IF "F9" \in Fixes /\ init \in Terminal
+               THEN Err(Finally(s1), r.exc)          \* transition_failed: a terminated process stays as it is
                ELSE \* Process.transition_failed: while creating re-raise, otherwise go to EXCEPTED
                     LET s2 == IF init \in Terminal THEN Dev(s1, "D1") ELSE s1
                         f  == TransitionTo([s2 EXCEPT !.failing = TRUE], Excepted(r.exc))
@@ -283,7 +285,7 @@ OnPaused(s, text) ==                      \* on_pausing; on_paused
        IN Hook(Listeners(t1, "paused", None), "on_paused"))
 
 DoPause(s, text, next) ==                 \* _do_pause: try ... finally self._pausing = None
-  LET r == Then(TransitionTo(s, next), LAMBDA t : OnPaused(t, text))
+  LET r == Then(IF next.label = "NONE" THEN Ok(s, None) ELSE TransitionTo(s, next), LAMBDA t : OnPaused(t, text))
   IN [r EXCEPT !.s.pausing = 0, !.ret = IF r.exc = NoExc THEN "True" ELSE None]
 
 Pause(s, text) ==
@@ -319,7 +321,8 @@ Fail(s, e) ==                             \* @event(to_states=Excepted)
   IF t.exc # NoExc THEN t ELSE IF t.s.st # "EXCEPTED" THEN Err(t.s, "EventError") ELSE t
 
 CallbackExcepted(s, e) ==                 \* Process.callback_excepted
-  IF s.st = "EXCEPTED" THEN Ok(s, None) ELSE Fail(s, e)
+  IF "F9" \in Fixes THEN (IF s.st \in Terminal THEN Ok(s, None) ELSE Fail(s, e))
+  ELSE IF s.st = "EXCEPTED" THEN Ok(s, None) ELSE Fail(s, e)
 
 \* CancellableAction.run(next_state): exceptions of the action are captured into the action future
 RunAction(s, a, next) ==
@@ -327,7 +330,11 @@ RunAction(s, a, next) ==
   ELSE LET r == IF s.acts[a].kind = "pause" THEN DoPause(s, s.acts[a].text, next)
                 ELSE LET s0 == IF next.label = "EXCEPTED" THEN Dev(s, "D8") ELSE s
                          t  == TransitionTo(s0, Killed(s.acts[a].text)) IN [t EXCEPT !.s.killing = 0]
-       IN IF r.exc = NoExc THEN Ok([r.s EXCEPT !.acts[a].status = "done"], None)
+       IN \* set_result / set_exception on the action future; if user code reached from the action replaced
+          \* (and so cancelled) the very action that is running, both raise InvalidStateError out of step()
+          \* (known finding D10)
+          IF r.s.acts[a].status # "pending" THEN Err(Dev(r.s, "D10"), "InvalidStateError")
+          ELSE IF r.exc = NoExc THEN Ok([r.s EXCEPT !.acts[a].status = "done"], None)
           ELSE Ok([r.s EXCEPT !.acts[a].status = "failed:" \o r.exc], None)
 
 (* ----------------------------------------------------------------------------------------------- *)
@@ -353,8 +360,10 @@ AfterExec(s, o) ==                        \* the rest of step() once execute ret
                           s0 == NewAct(IF k.status = "cancelled" THEN Dev(s, "D4") ELSE s, k.kind, k.text, o.cookie)
                       IN SetIntr(s0, Len(s0.acts))
             ELSE s
-      nx == IF o.kind = "state" THEN o.next ELSE NoState
-      r  == IF s1.intr # 0 THEN RunAction(s1, s1.intr, nx) ELSE TransitionTo(s1, nx)
+      gone == "F9" \in Fixes /\ s1.st \in Terminal      \* terminated (fail, callback) while the step was in flight
+      s1b == IF gone THEN SetIntr(s1, 0) ELSE s1
+      nx == IF o.kind = "state" /\ ~gone THEN o.next ELSE NoState
+      r  == IF s1b.intr # 0 THEN RunAction(s1b, s1b.intr, nx) ELSE TransitionTo(s1b, nx)
       s2 == SetIntr([r.s EXCEPT !.stepping = FALSE], 0)         \* finally
   IN IF r.exc # NoExc THEN TaskFailed(s2, r.exc) ELSE Advance([s2 EXCEPT !.task.pc = "top"])
 
@@ -372,7 +381,8 @@ StepBody(s, fn) ==
       got == <<fn, s.cur.args, s.cur.kw>>
       rv  == s.mon.resumeVal
       s0 == [s EXCEPT !.task.fn = fn, !.mon.expect = <<>>, !.mon.resumeVal = None,
-                      !.bad = (IF s.mon.expect # <<>> /\ s.mon.expect # got THEN @ \cup {"wrongContinuation"} ELSE @)
+                      !.bad = (IF s.mon.expect # <<>> /\ s.mon.expect # (IF Len(s.mon.expect) = 1 THEN <<fn>> ELSE got)
+                               THEN @ \cup {"wrongContinuation"} ELSE @)
                               \cup (IF rv # None /\ s.cur.args # (IF rv = "NULL" THEN <<>> ELSE <<rv>>)
                                     THEN {"wrongResumeValue"} ELSE {})
                               \cup (IF s.pausedF # "none" THEN {"stepWhilePaused"} ELSE {})]
@@ -384,7 +394,9 @@ StepBody(s, fn) ==
 StepReturn(s, fn) == [kind |-> "state", next |-> Commanded(Prog(s)[fn], <<>>)]
 \* C13 monitor: what the next step must receive according to the command that was returned
 Expecting(s, fn) == IF Prog(s)[fn].cmd = "continue"
-                    THEN [s EXCEPT !.mon.expect = <<Prog(s)[fn].next, Prog(s)[fn].args, Prog(s)[fn].kw>>] ELSE s
+                    THEN [s EXCEPT !.mon.expect = <<Prog(s)[fn].next, Prog(s)[fn].args, Prog(s)[fn].kw>>]
+                    ELSE IF Prog(s)[fn].cmd = "wait" THEN [s EXCEPT !.mon.expect = <<Prog(s)[fn].next>>]
+                    ELSE s
 
 Advance(s) ==
   CASE s.task.pc = "top" ->               \* while not self.has_terminated(): await self.step()
